@@ -25,6 +25,8 @@ import (
 	"github.com/LemoFoundationLtd/lemochain-core/common/log"
 )
 
+var ledgerExtras = map[string]func(*Ctx){} // mode -> extra cases run after the epochs (filled by init() of files that exist only in that mode's build)
+
 func init() {
 	subs["c05"] = func(c *Ctx) { ledgerScenario(c, "c05") }
 	subs["c11"] = func(c *Ctx) { ledgerScenario(c, "c11") }
@@ -227,7 +229,7 @@ func (l *ledger) dump(h common.Hash) string {
 		if v.deposit != "" {
 			dep = v.deposit
 		}
-		sb.WriteString(fmt.Sprintf("%d:%s,%s,%d,%d,%s,%d ", l.label(a), v.bal.String(), v.votes.String(), l.label(v.voteFor), v.isCand, dep, l.label(v.income)))
+		sb.WriteString(fmt.Sprintf("%d:%s,%s,%d,%d,%s,%d,%s ", l.label(a), v.bal.String(), v.votes.String(), l.label(v.voteFor), v.isCand, dep, l.label(v.income), l.profOf(h, a)))
 	}
 	return sb.String()
 }
@@ -306,7 +308,7 @@ func (l *ledger) txLine(kw string, lt *ledgerTx) string {
 			if id := p[types.CandidateKeyNodeID]; id != "" && l.n.DM.IsNodeDeputy(l.curHeight, common.FromHex(id)) {
 				nd = 1
 			}
-			kind = fmt.Sprintf("register %s %d %d %d", tx.Amount().String(), flag, inc, nd)
+			kind = fmt.Sprintf("register %s %d %d %d", tx.Amount().String(), flag, inc, nd) + l.registerFields(p) // c05_profile.go: the rest of the tx-supplied profile
 		}
 	case params.ModifySignersTx:
 		var ms struct {
@@ -317,11 +319,8 @@ func (l *ledger) txLine(kw string, lt *ledgerTx) string {
 			for _, s := range ms.Signers {
 				ss = append(ss, fmt.Sprintf("%d:%d", l.label(s.Address), s.Weight))
 			}
-			tok := 0
-			if isTempOf(tx.From(), *tx.To()) {
-				tok = 1
-			}
-			kind = fmt.Sprintf("setsigners %d %d %s", l.label(*tx.To()), tok, strings.Join(append([]string{"-"}, ss...), " "))
+			tok := fmt.Sprintf("%x:%x", tx.From().Bytes(), tx.To().Bytes()) // C06: no fed tempOk — the model computes verifyTempAddress from the two addresses (LemoModel.TempAddr)
+			kind = fmt.Sprintf("setsigners %d %s %s", l.label(*tx.To()), tok, strings.Join(append([]string{"-"}, ss...), " "))
 		}
 	case params.BoxTx:
 		kind = fmt.Sprintf("box %d", len(lt.subs))
@@ -343,7 +342,9 @@ func ledgerScenario(c *Ctx, mode string) {
 		remaining -= nb
 		c.Count("epoch")
 	}
+	if f := ledgerExtras[mode]; f != nil { f(c) } // per-mode additions registered by other files (c06*.go: temp addresses, gate table, all-type engine cases)
 	evmValueCases(c, mode) // c05_evmvalue.go: generated frame-tree programs vs LemoModel.EvmValue (own random stream)
+	dirtyTraceCases(c, mode) // c05_dirtytrace.go: C07 engine cases — a discarded box / failed call leaves no queued write behind (no random stream, no op lines)
 }
 
 func ledgerEpoch(c *Ctx, mode string, nBlocks int, epoch int) {
@@ -427,6 +428,7 @@ func ledgerEpoch(c *Ctx, mode string, nBlocks int, epoch int) {
 		}
 		c.Op(fmt.Sprintf("acct %d %s %s %d %d %s %d %d", l.label(a), v.bal.String(), v.votes.String(), l.label(v.voteFor), v.isCand, dep, l.label(v.income), isDep), "ok")
 	}
+	l.profOps(parent.Hash()) // c05_profile.go: the other profile keys of the genesis candidates; opens the deposit book
 
 	uniq := 0
 	u_ := func(p string) string { uniq++; return fmt.Sprintf("%s%d", p, uniq) }
@@ -469,10 +471,10 @@ func ledgerEpoch(c *Ctx, mode string, nBlocks int, epoch int) {
 			other = extraNames[rnd.Intn(len(extraNames))]
 		}
 		ok_ := l.key(other)
-		kinds := []string{"transfer", "transfer", "transfer", "overdraft", "vote", "vote", "register", "topup", "unregister", "box", "boxfail", "payer", "payer-unsigned", "wrongkey", "setsigners", "ms-ok", "ms-dup", "ms-mall", "ms-short", "ms-ownkey", "extrasig", "pricey", "zero", "tamper", "tamper-box", "tamper-box-multi", "payer-self-forged", "flag", "payer-other-kind", "setsigners-var", "ms-resign", "ms-renonce"}
+		kinds := []string{"transfer", "transfer", "transfer", "overdraft", "vote", "vote", "register", "topup", "unregister", "box", "boxfail", "payer", "payer-unsigned", "wrongkey", "setsigners", "ms-ok", "ms-dup", "ms-mall", "ms-short", "ms-ownkey", "extrasig", "pricey", "zero", "tamper", "tamper-box", "tamper-box-multi", "payer-self-forged", "flag", "payer-other-kind", "setsigners-var", "ms-resign", "ms-renonce", "forge"}
 		switch l.mode {
 		case "c11":
-			kinds = []string{"transfer", "transfer", "vote", "vote", "vote", "register", "topup", "unregister", "box", "payer", "flag", "payer-other-kind"}
+			kinds = []string{"transfer", "transfer", "vote", "vote", "vote", "register", "topup", "unregister", "box", "payer", "flag", "payer-other-kind", "forge", "forge"}
 		case "c06":
 			kinds = []string{"transfer", "payer", "payer-unsigned", "wrongkey", "setsigners", "ms-ok", "ms-dup", "ms-mall", "ms-short", "ms-ownkey", "ms-ownkey", "extrasig", "tamper", "tamper-box", "tamper-box-multi", "tamper-box-multi", "payer-self-forged", "box", "setsigners-var", "setsigners-var", "payer-other-kind", "ms-resign", "ms-resign", "ms-renonce", "ms-renonce"}
 		}
@@ -532,6 +534,12 @@ func ledgerEpoch(c *Ctx, mode string, nBlocks int, epoch int) {
 		regDeposit := func() *big.Int { return lemo(int64(1000 + rnd.Intn(4)*50 + rnd.Intn(3))) }
 		withFlag := func(v string) map[string]string { return map[string]string{types.CandidateKeyIsCandidate: v} }
 		switch k {
+		case "forge":
+			// c05_profile.go: a RegisterTx whose profile carries forged PROTECTED keys (deposit entry, node id), or the top-up after one
+			if ftx, class, nm := l.forgedRegister(rnd, cands, u, pick, exp(), u_("fg")); ftx != nil {
+				return mk(ftx, class, nm)
+			}
+			k = "transfer"
 		case "register-flag-false":
 			// a FIRST registration that says isCandidate:"false": registerCandidate stores the flag as it is — an
 			// "unregistered candidate" with a deposit and deposit votes
@@ -1358,6 +1366,7 @@ func ledgerEpoch(c *Ctx, mode string, nBlocks int, epoch int) {
 			}
 			c.Op(fmt.Sprintf("acct %d %s %s %d %d %s %d %d", l.label(a), v.bal.String(), v.votes.String(), l.label(v.voteFor), v.isCand, dep, l.label(v.income), isDep), "ok")
 		}
+		l.profOps(parent.Hash()) // c05_profile.go
 		// signers survive a resync only through setsigners lines: replay them — from the harness's OWN record of the main
 		// chain's signer lists (never from what the implementation's state says)
 		var tl []common.Address
@@ -1889,6 +1898,7 @@ func (l *ledger) oracles(b *types.Block, invalid types.Transactions, byHash map[
 		}
 	}
 	_ = hasBox
+	l.depositOracle(b) // c05_profile.go: recorded deposit == deposit paid by construction (c11/deposit-mismatch/…); before the tally oracle
 	// ---- C05: conservation from the published balance logs
 	delta := new(big.Int)
 	for _, cl := range b.ChangeLogs {
@@ -2071,6 +2081,9 @@ func (l *ledger) oracles(b *types.Block, invalid types.Transactions, byHash map[
 					d, _ := new(big.Int).SetString(v.deposit, 10)
 					if d == nil {
 						d = new(big.Int)
+					}
+					if pd, ok := l.paidDeposit(h, a); ok {
+						d = pd // the deposit PAID by construction (c05_profile.go), not the one the profile records
 					}
 					e[a] = new(big.Int).Sub(v.votes, new(big.Int).Div(d, depositRateLit))
 				}
@@ -2317,6 +2330,9 @@ func (l *ledger) tallyOK(h common.Hash, cand common.Address) bool {
 	d, _ := new(big.Int).SetString(v.deposit, 10)
 	if d == nil {
 		d = new(big.Int)
+	}
+	if pd, ok := l.paidDeposit(h, cand); ok {
+		d = pd
 	}
 	exp := new(big.Int).Div(d, depositRateLit)
 	for _, a := range l.univ {
